@@ -21,6 +21,11 @@ type c20Case struct {
 	Reset     bool     `json:"reset,omitempty"`
 	FailWrite int      `json:"fail_write_from,omitempty"`
 	Password  string   `json:"requirepass,omitempty"`
+	// SwapAt > 0: the application calls SetTracer with another tracer while the
+	// connection waits for input with exactly SwapAt bytes consumed (a request
+	// boundary). NoFirst: no tracer was installed before that.
+	SwapAt  int  `json:"swap_tracer_at,omitempty"`
+	NoFirst bool `json:"no_first_tracer,omitempty"`
 }
 
 func c20Check(cs c20Case) (clause, detail string) {
@@ -36,7 +41,9 @@ func c20Check(cs c20Case) (clause, detail string) {
 	catalogueDouble(d)
 	s := srv.NewServer(d)
 	tr := srv.NewTracer()
-	s.SetTracer(tr)
+	if !cs.NoFirst {
+		s.SetTracer(tr)
+	}
 	if cs.Password != "" {
 		s.SetRequirePass(cs.Password)
 		// Start() is what installs the password authenticator; emulate its effect
@@ -44,7 +51,28 @@ func c20Check(cs c20Case) (clause, detail string) {
 		installPassword(s, cs.Password)
 	}
 	conn := seq.NewConn(seq.Script{Input: in, End: end, FailWriteFrom: cs.FailWrite})
+	tr2 := srv.NewTracer()
+	if cs.SwapAt > 0 {
+		swapped := false
+		conn.OnRead = func(delivered int, starving bool) {
+			if !swapped && delivered == cs.SwapAt {
+				swapped = true
+				s.SetTracer(tr2)
+			}
+		}
+	}
 	out := srv.RunConn(s, conn)
+	if cs.SwapAt > 0 {
+		if out.Panic != "" || out.Spin != "" {
+			return "", ""
+		}
+		for i, t := range []*srv.Tracer{tr, tr2} {
+			if cl, dt, _ := srv.CheckSpans(t.Events); cl != "" {
+				return cl, fmt.Sprintf("tracer #%d (SetTracer called with the second one after %d bytes): %s events=%s", i+1, cs.SwapAt, dt, spanLog(t.Events))
+			}
+		}
+		return "", ""
+	}
 	if out.Panic != "" {
 		// a crash that only happens with a tracer installed is a span the connection
 		// loop finished, or asked for, after it had been popped: differential run
@@ -127,6 +155,20 @@ func c20Run(c *fw.Ctx) {
 		for cut := 0; cut < len(it.Bytes); cut += step {
 			run(c20Case{Input: it.Bytes, Labels: []string{it.Label}, Cut: cut}, name+"|"+it.Kind+"|cut")
 			run(c20Case{Input: it.Bytes, Labels: []string{it.Label}, Cut: cut, Reset: true}, name+"|"+it.Kind+"|cut-reset")
+		}
+	}
+	// SetTracer while the connection is open: before and after every catalogue request
+	ping := grammar.Encode([]string{"PING"})
+	for _, it := range cat {
+		if !c.Mine() || it.Kind == "quit" {
+			continue
+		}
+		name := it.Label[:strings.IndexByte(it.Label, '|')]
+		in := concat(ping, it.Bytes, ping)
+		for _, at := range []int{len(ping), len(ping) + len(it.Bytes)} {
+			for _, noFirst := range []bool{false, true} {
+				run(c20Case{Input: in, Labels: []string{"PING", it.Label, "PING"}, Cut: -1, SwapAt: at, NoFirst: noFirst}, name+"|"+it.Kind+"|tracer-replaced")
+			}
 		}
 	}
 	for _, t := range tops {
